@@ -16,6 +16,7 @@ RULE = ("(A) verif.aggregator.get(name)(array, axis) for all 14 named aggregator
         "identically; `-T h -Tagg f -Tx a -m mae -type csv` equals the reference. signature = (aggregator, ndim, axis) / "
         "(window class, Tagg, Tx, field, format); non-trivial (B) = some window covers >= 2 and fewer than all entries.")
 RULE += " " + "Every input's ensemble fields; same file names in different directories; twin lead-time grids; rapid-update cycles (sub-hourly initialisation times) with -Tx time; every quantile level compared with the linear-interpolation sample quantile."
+RULE += " " + 'Rounds 9-10: the -T/-Tx/-Tagg/-m/-x/-type option groups are shuffled.'
 ASSUMPTIONS = ["std/variance are population statistics (NumPy default), as verif documents no Bessel correction",
                "pre-aggregated values are float32 (verif stores them so): relative tolerance 2e-6",
                "a window containing a missing value is missing for aggregators that propagate NaN"]
